@@ -5,7 +5,7 @@ cd /repo || exit 2
 if [ -n "$(git status --porcelain --untracked-files=no)" ]; then echo "repo not clean"; exit 2; fi
 git apply "$patch" || { echo "patch does not apply"; exit 2; }
 for p in "$@"; do
-  out=$(cd /verif && ./check "$p" 2>&1 | grep -E "VIOLATION|KNOWN-FINDING|tier=|TRANSLATE|error" | head -8)
+  out=$(cd /verif && ./check "$p" 2>&1 | grep -E "VIOLATION|tier=|TRANSLATE|error" | head -8)
   echo "== $p: $out"
 done
 git -C /repo checkout -- .
